@@ -119,7 +119,10 @@ pub mod ctap2 { use super::*;
     pub mod get_info { use vstd::prelude::*;
         #[verifier::external_body] pub struct Extension { _p: u8 }
         #[verifier::external_body] pub struct Rest { _p: u8 }
-        pub struct Response { pub extensions: Option<Vec<Extension>>, pub transports: Option<Vec<crate::webauthn::AuthenticatorTransport>>, pub rest: Rest } }
+        //@ source tgi passkey-types/src/ctap2/get_info.rs
+        //@ extract tgi struct Options
+        pub struct Response { pub extensions: Option<Vec<Extension>>, pub transports: Option<Vec<crate::webauthn::AuthenticatorTransport>>, pub options: Option<Options>, pub rest: Rest }
+    }
     pub mod make_credential { use vstd::prelude::*;
         use crate::{Bytes, webauthn};
         use super::AuthenticatorData;
